@@ -128,7 +128,7 @@ def crit_case(draw, images):
     if images and c["nsrc"] == 3 and c["nchan"] == 2:
         c["nsrc"] = 2  # 3x2 costs ~4 s per permuted call; covered in the thorough tier through extra draws below
     c["images"] = images
-    c["scale"] = draw(st.sampled_from([-0.5, 3.0, 1e-3]))
+    c["scale"] = draw(st.sampled_from([-0.5, 3.0, 1e-3, 1e-6, -1e-7, 1e5]))     # also a very quiet and a very loud copy
     c["scale_which"] = draw(st.sampled_from(["est", "ref"]))
     c["scale_idx"] = draw(st.integers(0, c["nsrc"] - 1))
     c["sigma"] = list(draw(st.permutations(list(range(c["nsrc"])))))
